@@ -43,15 +43,18 @@ class Ctx:
         self.notes = []
         self._facts = {}
         self.export_info = []
+        self.view = 'plain'
 
     # -------------------------------------------------------------- facts
     def facts(self, config=None):
         config = config or self.config
-        if config not in self._facts:
+        k = (config, self.view)
+        if k not in self._facts:
             path, info = export.facts_path(config)
-            self.export_info.append(info)
-            self._facts[config] = Facts(path)
-        return self._facts[config]
+            if not any(i is info or i.get('config') == info.get('config') for i in self.export_info):
+                self.export_info.append(info)
+            self._facts[k] = Facts(path, self.view)
+        return self._facts[k]
 
     @property
     def F(self):
@@ -153,10 +156,25 @@ def load_known():
         return json.load(f)
 
 
+def run_rule(ctx, name, fn):
+    try:
+        fn(ctx)
+    except AnchorMissing as e:
+        ctx.bad('-', 'anchor-missing:' + str(e).split(' not found')[0],
+                'anchor missing: %s' % e)
+    except export.BuildFailed:
+        raise
+    except Exception as e:  # a crashed rule must not pass silently
+        tb = traceback.format_exc()
+        sys.stderr.write(tb)
+        ctx.bad('-', 'rule-crashed', 'rule %s crashed: %r' % (name, e))
+
+
 def run_property(pid, tier='quick', seed=0, only_rule=None, replay=None):
     from . import props  # noqa: F401  (registers rules)
     t0 = time.time()
     ctx = Ctx(pid, tier, seed)
+    known_keys_all = set(k['key'] for k in load_known().get('known', []))
     meta = META.get(pid, {})
     rules = RULES.get(pid, [])
     fatal = None
@@ -173,18 +191,45 @@ def run_property(pid, tier='quick', seed=0, only_rule=None, replay=None):
             for cfg in cfgs:
                 ctx.rule = name
                 ctx.config = cfg
-                try:
-                    fn(ctx)
-                    ran.append('%s@%s' % (name, cfg))
-                except AnchorMissing as e:
-                    ctx.bad('-', 'anchor-missing:' + str(e).split(' not found')[0],
-                            'anchor missing: %s' % e)
-                except export.BuildFailed:
-                    raise
-                except Exception as e:  # a crashed rule must not pass silently
-                    tb = traceback.format_exc()
-                    sys.stderr.write(tb)
-                    ctx.bad('-', 'rule-crashed', 'rule %s crashed: %r' % (name, e))
+                n_ob, n_vi = len(ctx.obligations), len(ctx.violations)
+                run_rule(ctx, name, fn)
+                ran.append('%s@%s' % (name, cfg))
+                fresh = ctx.violations[n_vi:]
+                if fresh and not all(v['key'] in known_keys_all for v in fresh) \
+                        and not any(':repo-does-not-build' in v['key'] for v in fresh):
+                    # second opinion on the expanded view (call-once closures run in place): the same program, rendered
+                    # differently; a rule satisfied there has its obligation established
+                    c2 = Ctx(pid, tier, seed)
+                    c2._facts, c2.export_info = ctx._facts, ctx.export_info
+                    c2.rule, c2.config, c2.view = name, cfg, 'expanded'
+                    run_rule(c2, name, fn)
+                    bad2_fns = set(v['fn'] for v in c2.violations if v['key'] not in known_keys_all)
+                    bad2_keys = set(v['key'] for v in c2.violations)
+                    ok2_fns = set(o['fn'] for o in c2.obligations if o['ok'])
+                    dropped = []
+                    for v in list(fresh):
+                        if v['key'] in known_keys_all:
+                            continue
+                        if v['fn'] not in ('-', '', None):
+                            # the obligations about this function hold on the expanded view: none violated, some discharged
+                            est = v['fn'] not in bad2_fns and v['fn'] in ok2_fns
+                        else:
+                            est = v['key'] not in bad2_keys and not bad2_fns and bool(ok2_fns)
+                        if est:
+                            dropped.append(v)
+                    if dropped:
+                        dk = set(v['key'] for v in dropped)
+                        ctx.violations[:] = [v for v in ctx.violations if v['key'] not in dk]
+                        for o in ctx.obligations[n_ob:]:
+                            if not o['ok'] and ('%s.%s:%s:%s' % (pid, name, o['fn'], o['what'])) in dk:
+                                o['ok'] = True
+                                o['detail'] = 'established on the expanded view (call-once closures run in place); plain view: ' + o['detail'][:160]
+                        # known findings visible only on the expanded view are still findings
+                        for v in c2.violations:
+                            if v['key'] in known_keys_all and not any(x['key'] == v['key'] for x in ctx.violations):
+                                ctx.violations.append(v)
+                        ctx.analysed_fns |= c2.analysed_fns
+                        ctx.note('%d obligation(s) decided on the expanded view: %s' % (len(dropped), ', '.join(sorted(dk))[:300]))
     except export.BuildFailed as e:
         fatal = str(e)
         ctx.rule = 'build'
